@@ -37,6 +37,7 @@ Import ListNotations.
 CHECKS = {
     "L2cost": "fun c => l2_cost (fst c) (snd c)",
     "L2alleles": "fun c => l2_alleles (fst c) (snd c)",
+    "L2witness": "fun c => l2_witness (fst c) (snd c)",
     "L1witness": "fun c => l1_witness (fst c) (snd c)",
     "L1alleles": "fun c => l1_alleles (fst c) (snd c)",
 }
